@@ -39,7 +39,13 @@ IsTokCase == phase = "case" \/ (phase = "pick" /\ toks = <<>>)
 IsTreeCase == toks = <<"tree">>
 Text == JoinStr(toks, " ")
 R == Parse(Text, <<>>, Instrs, WS)
-Dropped(t) == Classify(t, Instrs).kind = "drop"
+\* in the model a malformed vector literal is dropped (C03); the trace specification also admits the lenient reading
+Dropped(t) == LET c == Classify(t, Instrs) IN c.kind = "item" /\ c.item.k = "optvec"
+RECURSIVE StripOpt(_)
+StripOpt(seq) == FlatSeq([i \in 1..Len(seq) |->
+                   IF seq[i].k = "optvec" THEN <<>>
+                   ELSE IF seq[i].k = "list" THEN <<[seq[i] EXCEPT !.v = StripOpt(seq[i].v)]>>
+                   ELSE <<seq[i]>>])
 Kept == SelectSeq(toks, LAMBDA t : ~Dropped(t))
 \* canonical text of a kept token (how the printer would show the parsed item)
 Canon(t) == CASE t = "2147483648" -> "?" [] t = "1.5" -> "?" [] t = "FLOAT[0.5,2]" -> "?" [] OTHER -> t
@@ -49,9 +55,9 @@ RenderP(t) == IF t.k \in {"floatany", "fvecp", "float"} THEN "?"
               ELSE Render(t)
 \* P2: a balanced, complete program parses to exactly its token tree, first token on top
 P2 == IsTokCase /\ R.balanced /\ R.depth = 0 =>
-        JoinStr([i \in 1..Len(R.exec) |-> RenderP(R.exec[i])], " ") = JoinStr([i \in 1..Len(Kept) |-> Canon(Kept[i])], " ")
+        JoinStr([i \in 1..Len(StripOpt(R.exec)) |-> RenderP(StripOpt(R.exec)[i])], " ") = JoinStr([i \in 1..Len(Kept) |-> Canon(Kept[i])], " ")
 \* P4: a malformed vector literal is dropped without disturbing its neighbours
-P4 == IsTokCase => LET R2 == Parse(JoinStr(Kept, " "), <<>>, Instrs, WS) IN R2.exec = R.exec /\ R2.balanced = R.balanced
+P4 == IsTokCase => LET R2 == Parse(JoinStr(Kept, " "), <<>>, Instrs, WS) IN R2.exec = StripOpt(R.exec) /\ R2.balanced = R.balanced
 \* P3 (and C11 on the specification): parse(render(t)) = t and print(parse(print(t))) = print(t)
 P3 == IsTreeCase => /\ Parse(Render(tree), <<>>, Instrs, WS).exec = <<tree>>
                     /\ Parse(PrintItem(tree), <<>>, Instrs, WS).exec = <<tree>>
